@@ -2,6 +2,7 @@ package ircserver
 
 import (
 	"sort"
+	"time"
 	"strings"
 
 	"github.com/robustirc/robustirc/internal/robust"
@@ -91,6 +92,14 @@ func vDoStep() *vStep {
 	if (cmd == "MODE" || cmd == "SVSMODE") && n >= 2 {
 		// bound: at most this many characters in a mode string
 		verifAssume(len(params[1]) <= verifParam("modelen", 2))
+	}
+	if cmd == "PASS" {
+		// bound: total length of the password text
+		total := 0
+		for j := range params {
+			total += len(params[j]) + 1
+		}
+		verifAssume(total <= verifParam("passlen", 8))
 	}
 	msg := &irc.Message{Command: cmd, Params: params}
 	if role == vRoleServices {
@@ -236,4 +245,87 @@ func verifHarness_C03_roundtrip() {
 	verifAssert(verifAnd(a.MaxSessions == b.MaxSessions, a.MaxChannels == b.MaxChannels), "roundtrip-config-limits")
 	verifAssert(verifDeepEq(a.Banned, b.Banned, "nileqempty"), "roundtrip-config-banned")
 	verifAssert(verifDeepEq(a.WhitelistedOrigins, b.WhitelistedOrigins, "nileqempty"), "roundtrip-config-whitelisted-origins")
+}
+
+// C17 (a): a lookup answers "no such session" only for ids that are not
+// sessions and older than something applied; ids newer than everything
+// applied are "not yet seen".
+func verifHarness_C17_lookup() {
+	t := vBuild(vRoleClient)
+	i := t.i
+	// ids are raft indexes: every session id is at most the newest applied id
+	for _, s := range t.all() {
+		verifAssume(s.Id.Id <= i.lastProcessed.Id)
+	}
+	q := robust.Id{Id: nondetU64()}
+	s, err := i.GetSession(q)
+	isSession := false
+	for _, x := range t.sess {
+		isSession = verifOr(isSession, x.Id == q)
+	}
+	if t.link != nil {
+		isSession = verifOr(isSession, t.link.Id == q)
+	}
+	verifAssert(verifImplies(err == nil, verifAnd(isSession, s != nil)), "found-session-exists")
+	if err == nil && s != nil {
+		verifAssert(s.Id == q, "found-session-is-the-one-asked-for")
+	}
+	verifAssert(verifImplies(isSession, err == nil), "live-session-is-found")
+	verifAssert(verifImplies(err == ErrNoSuchSession, verifAnd(!isSession, q.Id < i.lastProcessed.Id)), "no-such-session-only-for-dead-ids-older-than-applied")
+	verifAssert(verifImplies(verifAnd(!isSession, q.Id > i.lastProcessed.Id), err == ErrSessionNotYetSeen), "newer-than-applied-is-not-yet-seen")
+	verifAssert(verifOr(err == nil, err == ErrNoSuchSession, err == ErrSessionNotYetSeen), "lookup-error-is-one-of-the-two")
+}
+
+// C17 (b): the expiry sweep proposes deletion for exactly the client sessions
+// whose last activity is older than the configured expiration.
+func verifHarness_C17_expire() {
+	t := vBuild(vRoleClient)
+	i := t.i
+	now := vTime()
+	verifSetNow(now)
+	deletes := i.ExpireSessions()
+	timeout := time.Duration(i.Config.SessionExpiration)
+	all := t.all()
+	if t.link != nil {
+		all = append(all, t.link)
+	}
+	for _, s := range all {
+		want := verifAnd(s.Id.Reply == 0, now.Sub(s.LastActivity) > timeout)
+		got := false
+		n := 0
+		for _, d := range deletes {
+			if d.Session == s.Id {
+				got = true
+				n++
+				verifAssert(d.Type == robust.DeleteSession, "expiry-proposes-delete-session")
+			}
+		}
+		verifAssert(got == want, "expiry-exactly-for-idle-client-sessions")
+		verifAssert(n <= 1, "expiry-proposes-each-session-once")
+	}
+}
+
+// C01: two executions of the same entry on the same state agree on every
+// reply (ids, bytes, recipients) and on the resulting state, whatever order
+// the hash maps are iterated in and whatever the clock says.
+func verifHarness_C01_step() {
+	mark := verifDrawMark()
+	verifPermute(0)
+	a := vDoStep()
+	verifDrawRewind(mark)
+	verifPermute(verifParam("permute", 1))
+	b := vDoStep()
+	verifPermute(0)
+	if a.reply == nil || b.reply == nil {
+		verifAssert(a.reply == nil && b.reply == nil, "both-executions-complete")
+		return
+	}
+	verifAssert(len(a.reply.Messages) == len(b.reply.Messages), "same-number-of-replies")
+	for k := 0; k < len(a.reply.Messages) && k < len(b.reply.Messages); k++ {
+		x, y := a.reply.Messages[k], b.reply.Messages[k]
+		verifAssert(x.Id == y.Id, "same-reply-ids")
+		verifAssert(x.Data == y.Data, "same-reply-bytes-in-the-same-order")
+		verifAssert(verifDeepEq(x.InterestingFor, y.InterestingFor, "nileqempty"), "same-recipients")
+	}
+	verifAssert(verifDeepEq(a.t.i, b.t.i, "skip=IRCServer.ServerCreation;nileqempty"), "same-resulting-state")
 }
